@@ -112,8 +112,8 @@ def dt_text(loc, tz):
 
 def dur_text(secs: int) -> str:
     sign = '-' if secs < 0 else ''
-    m = abs(secs) // 60
-    return f'{sign}PT{m // 60}H{m % 60}M' if m else 'PT0S'
+    a = abs(secs)
+    return f'{sign}PT{a // 3600}H{a // 60 % 60}M{a % 60}S' if a else 'PT0S'
 
 
 def render(e, merge=False) -> str:
@@ -300,8 +300,13 @@ class Gen:
         if vs:
             opts += ['var'] * 3
         if d > 0:
-            opts += ['list', 'list', 'for', 'for', 'for', 'let', 'call']
+            opts += ['list', 'list', 'for', 'for', 'for', 'let', 'call', 'emptyarith']
         o = rng.choice(opts)
+        if o == 'emptyarith':
+            # get_operands: an empty operand makes the result empty, the other operand is (not) evaluated
+            other = wrap_operand(self.g_int(scope, d - 1))
+            op = rng.choice(['A', 'M'])
+            return (op, ('E',), other) if rng.random() < 0.5 else (op, other, ('E',))
         if o == 'empty':
             return ('E',)
         if o == 'int':
@@ -337,6 +342,8 @@ class Gen:
     def g_dt(self, scope, d):
         rng = self.rng
         vs = self.vars_of(scope, 'dt')
+        if rng.random() < 0.04:
+            return ('E',)       # xs:dateTime? : the empty sequence as operand / argument
         if vs and rng.random() < 0.65:
             return ('V', rng.choice(vs))
         if d > 0 and rng.random() < 0.25:
@@ -468,6 +475,28 @@ def gen_program(rng, globals_, depth):
             comps.append(('L', fs, mk, ('L', p_, mk_call(('V', fs), [g.g_int(scope, 1)]),
                                         ('L', q_, mk_call(('V', fs), [g.g_int(scope, 1)]), use))))
         flavour = 'closures-from-one-expression'
+    elif r < 0.54 and any(t == 'dt' for t in scope.values()):
+        # fn:adjust-dateTime-to-timezone with a $timezone outside -14:00..+14:00 / not a whole number of minutes
+        # (FODT0003), as a strict top-level component after other components
+        bad = rng.choice([54000, -54060, 90, 50430])
+        comps.append(('J2', ('V', rng.choice([n_ for n_, t in scope.items() if t == 'dt'])), ('K', bad)))
+        flavour = 'invalid-timezone'
+    elif r < 0.58:
+        # an evaluation that RAISES in the middle of a binder / function body, after sub-evaluations that touch the
+        # caller's objects: the caller's state must be as before (theorem failing_eval_state_unchanged)
+        x = g.pick_name(scope)
+        u = rng.choice([n_ for n_ in Gen.POOL + [6, 7] if n_ not in scope and n_ != x])
+        pre = g.gen(rng.choice(['dur', 'dt', 'int']), {**scope, x: 'int'}, 1)
+        body = mk_seq([pre, ('V', u)])
+        kind = rng.choice(['L', 'F', 'O', 'call'])
+        if kind == 'L':
+            b = ('L', x, ('I', rng.randrange(5)), body)
+        elif kind in ('F', 'O'):
+            b = (kind, x, mk_seq([('I', 1), ('I', 2)]), body)
+        else:
+            b = mk_call(('N', (x,), body), [('I', 3)])
+        comps.append(b)
+        flavour = 'raises-inside-binder'
     rng.shuffle(comps) if flavour == 'plain' else None
     return mk_seq(comps) if len(comps) > 1 or rng.random() < 0.5 else comps[0], flavour
 
@@ -587,7 +616,7 @@ def canon_error(e: BaseException) -> str:
         code = (getattr(e, 'code', None) or '').split(':')[-1]
         if code == 'XPST0008':
             return 'ERR:unbound'
-        if code in ('XPTY0004', 'FORG0006', 'FOTY0013'):
+        if code in ('XPTY0004', 'FORG0006', 'FOTY0013', 'FODT0003'):
             return 'ERR:type'
         return f'ERR:{code or "nocode"}'
     return f'ERR:OTHER:{type(e).__name__}'
@@ -952,6 +981,8 @@ CACHE_EXPRS = [
     "string-join((for $i in 1 to $v return 'x'), '')", "map:merge((map{1:$v}, map{2:count(//b)}))(2)",
     "map:put(map{1:$v}, 2, 5)(1)", "sort((3,1,$v))", "$v ! (. + 1)", "let $x := $v return function(){$x}()",
     "count(/*/*) + $v", "(//b)[$v]/name()", "some $x in //b satisfies count($x/preceding-sibling::*) = $v",
+    # variables looked up by prefixed / expanded name (VariableToken.evaluate, second lookup)
+    "$p:w + $v", "let $p:w := $v return ($p:w, $v)", "for $p:w in (1, 2) return $p:w + $v", "$Q{urn:c05:p}w + $v",
     # named function references: the item carries the focus / root of the evaluation that built it
     "let $f := /*/name#0 return $f()", "/*/name#0()", "/*/local-name#0()", "/*/string#0()", "/*/string-length#0() + $v",
     "/*/node-name#0()", "/*/data#0()", "/*/normalize-space#0()", "/*/number#0()", "/*/base-uri#0()",
@@ -1049,12 +1080,17 @@ def cache_histories(run: Run) -> None:
     oracle = dict(ORACLE_EXPRS)
     for expr in CACHE_EXPRS + [e for e, _ in ORACLE_EXPRS]:
         for _ in range(run.scale(4, 30)):
+            ctor_vars = rng.random() < 0.2      # deprecated Selector(variables=...): stored on the selector
             try:
-                sel = Selector(expr, parser=XPath31Parser)
+                import warnings
+                with warnings.catch_warnings():
+                    warnings.simplefilter('ignore')
+                    sel = (Selector(expr, namespaces=dict(NS), parser=XPath31Parser, variables={'v': 2, '{urn:c05:p}w': 7})
+                           if ctor_vars else Selector(expr, namespaces=dict(NS), parser=XPath31Parser))
             except Exception as e:  # noqa
                 run.disagree(Disagreement({'xpath': expr}, canon_error(e), 'parsed', what='cache-expression-rejected'))
                 break
-            steps = [(rng.randrange(len(DOCS)), rng.randrange(1, 4)) for _ in range(rng.randrange(3, 9))]
+            steps = [(rng.randrange(len(DOCS)), 2 if ctor_vars else rng.randrange(1, 4)) for _ in range(rng.randrange(3, 9))]
             if len({d for d, _ in steps}) < 2:
                 steps[-1] = ((steps[0][0] + 1 + rng.randrange(len(DOCS) - 1)) % len(DOCS), steps[-1][1])
             docs = {}
@@ -1063,16 +1099,19 @@ def cache_histories(run: Run) -> None:
                     docs[d] = make_doc(d)
                 root, tostr = docs[d]
                 before = tostr()
-                vs = {'v': v}
+                vs = {'v': v, '{urn:c05:p}w': 7}
+                vs0 = dict(vs)
+                kw = {} if ctor_vars else {'variables': vs}
 
                 def g(f):
                     try:
                         return canon_any(f())
                     except Exception as e:  # noqa
                         return canon_error(e)
-                got = g(lambda: sel.select(root, variables=vs))
-                it = g(lambda: list(sel.iter_select(root, variables=vs)))
-                fresh = g(lambda: elementpath.select(make_doc(d)[0], expr, parser=XPath31Parser, variables={'v': v}))
+                got = g(lambda: sel.select(root, **kw))
+                it = g(lambda: list(sel.iter_select(root, **kw)))
+                fresh = g(lambda: elementpath.select(make_doc(d)[0], expr, namespaces=dict(NS), parser=XPath31Parser,
+                                                     variables=dict(vs0)))
                 run.stats.count('cache-history-steps')
                 case = {'xpath': expr, 'steps': [{'doc': DOCS[a][1], 'v': b} for a, b in steps[:k + 1]]}
                 if got != fresh:
@@ -1089,7 +1128,7 @@ def cache_histories(run: Run) -> None:
                     run.disagree(Disagreement(case, 'iter_select:' + it, None, spec='iter_select:' + got,
                                               what='select-vs-iter_select', site='Selector.iter_select'))
                     break
-                if tostr() != before or vs != {'v': v}:
+                if tostr() != before or vs != vs0:
                     run.disagree(Disagreement(case, 'modified', None, spec='unchanged', what='caller-state-modified'))
                     break
 
@@ -1364,9 +1403,13 @@ def typeof(e, scope):
         return 'seq' if a in ('int', 'seq') and b in ('int', 'seq') else 'mixed'
     if t in ('A', 'M'):
         a, b = typeof(e[1], scope), typeof(e[2], scope)
+        if (e[1] == ('E',) and b in ('int', 'dt')) or (e[2] == ('E',) and a in ('int', 'dt')):
+            return 'seq'
         if a == b == 'int':
             return 'int'
         if t == 'M' and a == b == 'dt':
+            return 'dur'
+        if t == 'M' and ((e[1] == ('E',) and b == 'dt') or (e[2] == ('E',) and a == 'dt')):
             return 'dur'
         raise IllTyped(f'{t} on {a},{b}')
     if t == 'Q':
@@ -1377,7 +1420,7 @@ def typeof(e, scope):
     if t == 'D':
         return 'dt'
     if t == 'Z':
-        if typeof(e[1], scope) != 'dt':
+        if e[1] != ('E',) and typeof(e[1], scope) != 'dt':
             raise IllTyped('Z')
         return 'tzdur'
     if t == 'K':
@@ -1385,11 +1428,11 @@ def typeof(e, scope):
             raise IllTyped('K')
         return 'tzdur'
     if t == 'J':
-        if typeof(e[1], scope) != 'dt':
+        if e[1] != ('E',) and typeof(e[1], scope) != 'dt':
             raise IllTyped('J')
         return 'dt'
     if t == 'J2':
-        if typeof(e[1], scope) != 'dt' or not (e[2] == ('E',) or typeof(e[2], scope) == 'tzdur'):
+        if (e[1] != ('E',) and typeof(e[1], scope) != 'dt') or not (e[2] == ('E',) or typeof(e[2], scope) == 'tzdur'):
             raise IllTyped('J2')
         return 'dt'
     if t == 'L':
